@@ -93,6 +93,12 @@ def queryBallPoint (tree : Option (List (Point K))) (c : Point K) (r : K) : Opti
 themselves; NumPy cannot infer `-1` for `size == 0` (ValueError, `none`). -/
 def npReshapeRows (rows : List (Point K)) (size : Nat) : Option (List (Point K)) :=
   if size = 0 then none else some rows
+/-- `np.flatnonzero(v <= r)`, `np.flatnonzero(v < r)`: the positions (ascending) of the entries
+within / strictly within `r` — a direct scan of an array of distances. -/
+def npFlatnonzeroLe (v : List K) (r : K) : List Nat :=
+  (v.zipIdx.filter fun x => decide (x.1 ≤ r)).map (·.2)
+def npFlatnonzeroLt [LT K] [DecidableLT K] (v : List K) (r : K) : List Nat :=
+  (v.zipIdx.filter fun x => decide (x.1 < r)).map (·.2)
 end tree
 
 /-! ### sequencing of expressions that may raise (the generated code binds their value with these) -/
